@@ -182,6 +182,7 @@ def client_edit(c, net):
     extra = {"G": (["HE", "H+"], ["HE+", "H"]), "A": (["C2", "H"], ["CH", "C"]), "C": (["H2O", "CRP"], ["OH", "H"]), "D": (["H", "H2"], ["H2", "H"]), "K": (["H2", "H+"], ["H2+", "H"]), "F": (["H2", "CR"], ["H", "H"])}[c]
     t = ReactionType.GAS_COSMICRAY if ("CR" in extra[0] or "CRP" in extra[0]) else ReactionType.GAS_TWOBODY
     net.add_reaction(Reaction(list(extra[0]), list(extra[1]), -1.0, -1.0, 1e-10, 0.0, 0.0, t, 77))
+    net.required_species = [s.name for s in net.required_species] + ["O"]  # a species no reaction of any client mentions
     net.allowed_species = [s.name for s in sorted(net.species, key=lambda s: s.name)]
 
 
